@@ -554,6 +554,29 @@ func init() {
 		ex.addFacts(nil, fs)
 		return []Val{ex.makeInterface(st, v, et)}
 	})
+	// ---- slices.Sort: afterwards adjacent elements are in non-decreasing order (permutation not modelled)
+	regEff("slices.Sort", "elements are permuted into non-decreasing order; only the adjacent-order fact is assumed", func(ex *Exec, a []Val, st *State, sig *types.Signature) []Val {
+		sl := a[0].(*Agg)
+		st0 := sig.Params().At(0).Type().Underlying().(*types.Slice)
+		ex.havocElems(st, tm(sl.F[0]), st0.Elem())
+		if kindOf(st0.Elem()) == kLeaf {
+			j := BoundVar("sj", SInt)
+			off := tm(sl.F[1])
+			x := st.heap.load(Elt(tm(sl.F[0]), j), st0.Elem(), nil).(*Term)
+			y := st.heap.load(Elt(tm(sl.F[0]), Add(j, IntT(1))), st0.Elem(), nil).(*Term)
+			var le *Term
+			if x.Sort == SStr {
+				le = Not(UF("strlt", SBool, y, x))
+			} else {
+				le = Le(x, y)
+			}
+			ex.fact(st, Forall([]*Term{j}, Implies(And(Le(off, j), Lt(Add(j, IntT(1)), Add(off, tm(sl.F[2])))), le)))
+		}
+		return nil
+	})
+	reg("strconv.Quote", "uninterpreted function of the string", func(ex *Exec, a []Val, st *State, sig *types.Signature) []Val {
+		return []Val{UF("strconv.quote", SStr, tm(a[0]))}
+	})
 	// ---- slices.SortFunc: afterwards adjacent elements are ordered by the comparator (permutation not modelled)
 	regEff("slices.SortFunc", "elements are permuted so that cmp(s[j], s[j+1]) <= 0 for adjacent elements; only this ordering fact is assumed, contents are otherwise arbitrary", func(ex *Exec, a []Val, st *State, sig *types.Signature) []Val {
 		sl := a[0].(*Agg)
